@@ -374,6 +374,15 @@ FreeJump(e, L) ==
       [] e[1] \in {"assert", "eval"} -> FALSE
       [] OTHER -> FALSE
 
+(* a template whose unquoted expressions hold such a jump: the expressions are compiled on their own when the    *)
+(* template is reached, apart from the loop around the template, so the jump is refused there whether or not it *)
+(* would run; what a jump out of a template means is left undefined (see EvT)                                   *)
+RECURSIVE TFreeJump(_)
+TFreeJump(t) ==
+    CASE t[1] \in {"unq", "splice"} -> FreeJump(t[2], {})
+      [] t[1] \in {"list", "arr"} -> \E i \in 1..Len(t[2]) : TFreeJump(t[2][i])
+      [] OTHER -> FALSE
+
 (* ---------------- the evaluator ---------------- *)
 RECURSIVE EvT(_, _, _), EvTSeq(_, _, _, _, _)
 RECURSIVE Ev(_, _, _), EvSeq(_, _, _, _), EvArgsC(_, _, _, _, _, _, _), EvLetSeq(_, _, _, _, _), DotGet(_, _, _, _), DotSet(_, _, _, _, _), Call(_, _, _), Loop(_, _, _),
@@ -605,7 +614,8 @@ Ev(e, f, s0) ==
     [] e[1] = "assert" ->
          LET r == Ev(e[2], f, s) IN
          IF ~IsVal(r) THEN r ELSE IF Truthy(r.v) THEN Val(Nil, r.s) ELSE ErrR("assert", r.s)
-    [] e[1] = "sq" -> EvT(e[2], f, s)      \* ^template
+    [] e[1] = "sq" -> IF TFreeJump(e[2]) THEN Res("undef", "jump-out-of-template", s)
+                      ELSE EvT(e[2], f, s)      \* ^template
     [] e[1] = "eval" ->     \* (eval (quote e)): e is compiled when reached and run in the current scope
          LET r == Ev(e[2], f, s) IN
          IF r.k \in {"brk", "cnt"} THEN ErrR("break-outside-loop", r.s) ELSE r
